@@ -37,6 +37,12 @@ fn stub_get_sample_id(_m: &smp::Map, sample: &Sample) -> Option<smp::Id> {
     unsafe { TABLE[column_of(sample)].map(|_| smp::Id(column_of(sample))) }
 }
 
+/// `sample::Map::default()` would seed a RandomState through getrandom(2), which CBMC cannot execute.
+/// The map is never consulted (both lookups are stubbed), so fixed SipHash keys are used instead.
+fn stub_random_state_new() -> std::hash::RandomState {
+    unsafe { std::mem::transmute::<(u64, u64), std::hash::RandomState>((1, 2)) }
+}
+
 struct MemReader {
     samples: Vec<Sample>,
     record: Option<Vec<genotype::Result>>,
@@ -148,6 +154,7 @@ fn oracle(results: &[genotype::Result; COLS]) -> (bool, bool, [usize; POPS], [us
 #[kani::unwind(8)]
 #[kani::stub(smp::Map::get_population_id, stub_get_population_id)]
 #[kani::stub(smp::Map::get_sample_id, stub_get_sample_id)]
+#[kani::stub(std::hash::RandomState::new, stub_random_state_new)]
 fn k_site_read_site_no_projection() {
     let (mut reader, results) = setup(None);
     let (error, any_skipped, counts, _totals, n_skipped) = oracle(&results);
@@ -180,6 +187,7 @@ fn k_site_read_site_no_projection() {
 #[kani::stub(smp::Map::get_population_id, stub_get_population_id)]
 #[kani::stub(smp::Map::get_sample_id, stub_get_sample_id)]
 #[kani::stub(crate::utils::hypergeometric_pmf, pmf_stub)]
+#[kani::stub(std::hash::RandomState::new, stub_random_state_new)]
 fn k_site_read_site_projection() {
     let to = [any_small(), any_small()];
     kani::assume(to[0] <= 6 && to[1] <= 6);
